@@ -206,4 +206,14 @@ macro_rules
             slice_eq, slice_set_eq, ite_decide_pos, ite_decide_neg])
         | (simp only [Option.bind_some, ite_some_some, ite_prod_left, ite_self, $ts,*])))
 
+/-- sequencing of two steps that cannot fail: if the first step succeeds with a result satisfying
+    `P` and the continuation succeeds on every such result, the whole succeeds.  Used with the
+    components' `next_total`, whose input is found by unification: it is never written down. -/
+theorem bind_total {α β : Type} {o : Option α} {f : α → Option β} {P : α → Prop} {Q : β → Prop}
+    (h : ∃ r, o = some r ∧ P r) (k : ∀ r, P r → ∃ q, f r = some q ∧ Q q) :
+    ∃ q, o.bind f = some q ∧ Q q := by
+  obtain ⟨r, e, hp⟩ := h
+  subst e
+  exact k r hp
+
 end TaRs.Rs
